@@ -311,6 +311,16 @@ def run(ctx) -> None:
                             "connect_delay": cd, "reply_delay": rd, "lost_first": lost}
                     ctx.check(case, lambda c: _run_one(ctx, c))
     ctx.sweep("slow connect x slow genuine reply x lost requests", sc, True)
+    # credentials given as bytes whose bytes all happen to be ASCII hex digits / printable text (they are bytes, not hex text)
+    hx = 0
+    for tokb, keyb in ((b"0123456789abcdef" * 4, b"c0ffee00" * 4), (b"A" * 64, b"f" * 32), (b"00" * 32, b"0" * 32), (b"deadbeef" * 8, bytes(range(0x30, 0x3A)) * 3 + b"ab")):
+        for prior in ("fresh", "authed"):
+            for m in (["genuine"], ["flip", 7], ["wrongkey", "random"]):
+                hx += 1
+                if ctx.mine(hx):
+                    case = {"token": tokb.hex(), "key": keyb.hex(), "nonce": "%02x" % hx, "token_form": "bytes", "key_form": "bytes", "prior": prior, "mut": m}
+                    ctx.check(case, lambda c: _run_one(ctx, c))
+    ctx.sweep("bytes credentials made of ASCII hex digits x prior x mutation", hx, True)
     # something arrives in the same segment right behind the reply
     bh = 0
     for behind in ("data", "reply2"):
